@@ -51,6 +51,8 @@ Record pobs := {
   po_uninit : bool;
   po_probes : list (pyval * res pyval);   (* datatype.validate(probe) on the instance *)
   po_shape : list Z;                      (* length / character-set properties of the instance datatype (dt_shape) *)
+  po_constant : pyval;                    (* the `constant` property of the instance (PNone: not set) = what the
+                                             description shows as "constant" *)
 }.
 
 Inductive mobs :=
@@ -111,7 +113,8 @@ Definition param_ok (p : param) (o : pobs) : bool :=
           && list_eqb Z.eqb (dt_shape d) (po_shape o)
       | None => false
       end)
-  && (p_iscmd p || Bool.eqb (p_uninit p) (po_uninit o)).
+  && (p_iscmd p || Bool.eqb (p_uninit p) (po_uninit o))
+  && (p_iscmd p || pv_same (match p_constant p with Some v => v | None => PNone end) (po_constant o)).
 
 Definition kv_eqb (a b : str * pyval) : bool := str_eqb (fst a) (fst b) && pv_same (snd a) (snd b).
 Definition ss_eqb (a b : str * str) : bool := str_eqb (fst a) (fst b) && str_eqb (snd a) (snd b).
